@@ -198,6 +198,13 @@ def run(repo: Repo) -> Result:
         for n in ast.walk(f.node):
             if isinstance(n, ast.Call) and isinstance(n.func, ast.Name) and n.func.id in MARKUP_CTORS:
                 arg = n.args[0] if n.args else None
+                # a local bound exactly once stands for its definition (an inlined or
+                # extracted temporary is the same construction)
+                if isinstance(arg, ast.Name):
+                    binds = [x.value for x in ast.walk(f.node) if isinstance(x, ast.Assign) and len(x.targets) == 1 and isinstance(x.targets[0], ast.Name) and x.targets[0].id == arg.id]
+                    params = {a.arg for a in f.node.args.args + f.node.args.kwonlyargs + f.node.args.posonlyargs}
+                    if len(binds) == 1 and arg.id not in params and f"{f.qual}|{text(arg)}" not in REVIEWED_MARKUP:
+                        arg = binds[0]
                 key = f"{f.qual}|{text(arg) if arg is not None else ''}"
                 seen.add(key)
                 res.ob(f"markup:{key}")
